@@ -34,7 +34,7 @@ def run_pytest(wd, args, env_extra=None, timeout=300):
 # ---------------------------------------------------------------------------------------------------------------
 # tag runs
 
-def write_tag_project(wd, structure, functions):
+def write_tag_project(wd, structure, functions, twin=False):
     """structure: [{'cls', 'ctag', 'tests': [{'name', 'mtag'}], 'parent'?}]; functions: [{'name', 'mtag'}]."""
     os.makedirs(wd, exist_ok=True)
     with open(os.path.join(wd, 'conftest.py'), 'w') as f:
@@ -61,15 +61,19 @@ def write_tag_project(wd, structure, functions):
         lines.append('')
     with open(os.path.join(wd, 'test_mod.py'), 'w') as f:
         f.write('\n'.join(lines) + '\n')
+    if twin:
+        # a second module that defines classes of the SAME names (they are other classes); its tests log '<Class>_twin'
+        with open(os.path.join(wd, 'test_twin.py'), 'w') as f:
+            f.write('\n'.join(lines).replace("_log(type(self).__name__ + ' ", "_log(type(self).__name__ + '_twin ") + '\n')
 
 
-def tag_run(wd, structure, functions, names, tagged, check, extra=()):
+def tag_run(wd, structure, functions, names, tagged, check, extra=(), twin=False):
     """names: class names / function names to narrow the selection (node ids)."""
-    write_tag_project(wd, structure, functions)
+    write_tag_project(wd, structure, functions, twin=twin)
     log = os.path.join(wd, 'executed.log')
     if os.path.exists(log):
         os.remove(log)
-    args = ['test_mod.py::%s' % n for n in names] or ['test_mod.py']
+    args = ['test_mod.py::%s' % n for n in names] or (['test_mod.py', 'test_twin.py'] if twin else ['test_mod.py'])
     args = list(extra) + args
     if tagged:
         args.append('--tagged')
@@ -85,6 +89,8 @@ def tag_run(wd, structure, functions, names, tagged, check, extra=()):
         if ln.startswith('test_mod.') and ' ' not in ln:
             name = ln[len('test_mod.'):]
             listed.append(name if name[:1].isupper() else 'fn_' + name)
+        elif ln.startswith('test_twin.') and ' ' not in ln:
+            listed.append(ln[len('test_twin.'):] + '_twin')
     error = 'none'
     if rc not in (0, 5):      # 5: no tests collected / selected
         error = 'exit %d: %s' % (rc, (out + err)[-300:])
